@@ -466,3 +466,79 @@ def private_helpers(atoms=()):
     def pred(cb):
         return cb.d.get("vis") != "pub" and cb.name not in atoms
     return pred
+
+
+def specialise(crate, body, consts):
+    """The body of a function of an `impl<.., const K: T>` read at one instantiation of its const parameters (`K = true`): operands
+    naming the parameter — directly or through a trivial accessor (`const fn k() -> T { K }`) — become the constant, switches on
+    such constants become jumps and the blocks no longer reachable are emptied.  `consts`: {parameter name: bool | int}."""
+    import copy
+    from .facts import Body
+    d = copy.deepcopy(body.d)
+    d.pop("_release_view", None)
+    blocks = d["blocks"]
+
+    def cst(v):
+        return {"c": {"ty": {"prim": "bool" if isinstance(v, bool) else "usize"}, ("bool" if isinstance(v, bool) else "int"): v}}
+    for blk in blocks:
+        for s in blk["s"]:
+            if "d" in s:
+                r = s["r"]
+                for k in ("use", "a", "b", "cast"):
+                    if isinstance(r.get(k), dict) and isinstance(r[k].get("c"), dict) and r[k]["c"].get("tyconst") in consts:
+                        r[k] = cst(consts[r[k]["c"]["tyconst"]])
+        t = blk["t"]
+        if "call" in t and t["call"].get("local") and t.get("target") is not None:
+            cb = crate.body(t["call"].get("id"))
+            if cb is not None and len(cb.blocks) == 1 and cb.argc == 0:
+                st = [s for s in cb.blocks[0]["s"] if "d" in s]
+                if len(st) == 1 and st[0]["d"] == 0 and "use" in st[0]["r"] and (st[0]["r"]["use"].get("c") or {}).get("tyconst") in consts:
+                    blk["s"].append({"d": t["dest"], "r": {"use": cst(consts[st[0]["r"]["use"]["c"]["tyconst"]])}, "ln": t.get("ln", 0)})
+                    blk["t"] = {"goto": t["target"], "ln": t.get("ln", 0)}
+    # constant switches -> jumps
+    def const_of_local(l):
+        defs = [s for b2 in blocks for s in b2["s"] if "d" in s and s["d"] == l]
+        if len(defs) == 1 and "use" in defs[0]["r"] and isinstance(defs[0]["r"]["use"].get("c"), dict):
+            c_ = defs[0]["r"]["use"]["c"]
+            if "bool" in c_:
+                return int(c_["bool"])
+            if "int" in c_:
+                return c_["int"]
+        return None
+    for blk in blocks:
+        t = blk["t"]
+        if "switch" in t:
+            op = t["switch"]
+            v = None
+            if isinstance(op.get("c"), dict):
+                v = int(op["c"]["bool"]) if "bool" in op["c"] else op["c"].get("int")
+            else:
+                l = op.get("cp") if "cp" in op else op.get("mv")
+                if isinstance(l, int):
+                    v = const_of_local(l)
+            if v is not None:
+                tgt = next((tg for val, tg in t["targets"] if val == v), t["otherwise"])
+                blk["t"] = {"goto": tgt, "ln": t.get("ln", 0)}
+    # unreachable blocks are emptied
+    seen, st_ = {0}, [0]
+    while st_:
+        k = st_.pop()
+        tt = blocks[k]["t"]
+        succ = []
+        if "goto" in tt:
+            succ.append(tt["goto"])
+        if "switch" in tt:
+            succ += [tg for _, tg in tt["targets"]] + [tt["otherwise"]]
+        for key in ("target", "unwind", "cleanup"):
+            if isinstance(tt.get(key), int):
+                succ.append(tt[key])
+        for x in succ:
+            if x not in seen and 0 <= x < len(blocks):
+                seen.add(x)
+                st_.append(x)
+    for k, blk in enumerate(blocks):
+        if k not in seen:
+            blk["s"] = []
+            blk["t"] = {"unreachable": None, "ln": blk["t"].get("ln", 0)}
+    nb = Body(d, body.crate, body.facts)
+    return nb
